@@ -76,7 +76,8 @@ def build(comm, cfg):
 # strategies
 # ----------------------------------------------------------------------------
 @st.composite
-def handler_config(draw, tier, min_dims=2, max_dims=4, max_extent=9, connected_only=False, max_procs=None):
+def handler_config(draw, tier, min_dims=2, max_dims=4, max_extent=9, connected_only=False, max_procs=None,
+                   allow_empty=False):
     max_procs = max_procs or (8 if tier == "quick" else 12)
     ndims = draw(st.integers(min_dims, max_dims))
     grids = gen.all_process_grids(max_procs, 1, min(2, ndims))
@@ -95,13 +96,16 @@ def handler_config(draw, tier, min_dims=2, max_dims=4, max_extent=9, connected_o
         perms = draw(gen.arbitrary_layout_set(ndims))
         mode = "arbitrary"
     nm = draw(gen.names(len(perms)))
-    shape = draw(gen.extents(gen.min_extents(ndims, nprocs, perms), max_extent))
+    mins = gen.min_extents(ndims, nprocs, perms)
+    shape = draw(gen.extents(mins, max_extent))
+    if allow_empty:
+        shape = draw(gen.maybe_short(shape, mins))
     return {"kind": "handler", "shape": shape, "nprocs": nprocs, "mode": mode,
             "layouts": [[n, p] for n, p in zip(nm, perms)]}
 
 
 @st.composite
-def swapper_config(draw, tier, min_dims=3, max_dims=4, max_extent=8, max_procs=None):
+def swapper_config(draw, tier, min_dims=3, max_dims=4, max_extent=8, max_procs=None, allow_empty=False):
     max_procs = max_procs or (8 if tier == "quick" else 12)
     ndims = draw(st.integers(min_dims, max_dims))
     grids = gen.all_process_grids(max_procs, 2, 2)
@@ -173,8 +177,11 @@ def swapper_config(draw, tier, min_dims=3, max_dims=4, max_extent=8, max_procs=N
         npg = [g["nprocs"]] if isinstance(g["nprocs"], int) else list(g["nprocs"])
         m = gen.min_extents(ndims, npg, [p for _, p in g["layouts"]])
         mins = [max(a, b) for a, b in zip(mins, m)]
+    real_mins = list(mins)
     mins = [max(m, 2) for m in mins]
     shape = draw(gen.extents(mins, max_extent))
+    if allow_empty:
+        shape = draw(gen.maybe_short(shape, real_mins, lo=2))
     start = draw(st.sampled_from(nm))
     cfg = {"kind": "swapper", "shape": shape, "groups": groups, "start": start}
     # keep the 2-D group findable: nranks() uses the product of the first group's nprocs
